@@ -502,6 +502,13 @@ def finish(res: Result, lean: LeanStatus | None, t0: float) -> int:
         "notes": res.notes,
         "lean_build_s": round(lean.build_s, 1) if lean else None,
     }
+    if n_dis == 0 or n_obl == 0:
+        # nothing was kernel-checked in this run (module did not build): the proof keys would be
+        # misleading, so only the exploration-style counts are reported
+        cov.pop("discharged")
+        cov.pop("obligations")
+        cov["obligations_stated"] = n_obl
+        cov["obligations_discharged"] = 0
     ev = {
         "property_id": pid,
         "tier": res.tier,
